@@ -155,7 +155,7 @@ func (sc *metaScn) c06Owners(st *metaStep) {
 
 func metaRun(t *testing.T, focus string) {
 	r := vfkit.New(focus)
-	defer r.Flush(true)
+	defer r.Finish()
 	cfg := vfConfig{Push: true}
 	if focus == "C07" {
 		cfg.MaxSubs = 5
